@@ -150,7 +150,10 @@ def gen_callers(r, driver, ncallers, maxops, mix=(0.45, 0.15, 0.4), **kw):
             x = r.random()
             # (hid drivers only: the serial drivers document in_transaction as internal to
             # run_sequence and have no provision for two commands in flight)
-            if kw.get("parallel") and driver in ("tridonic", "hasseb") and r.random() < kw["parallel"]:
+            if kw.get("connect_again") and r.random() < kw["connect_again"]:
+                # an "ensure connected" helper of the application: connect() on a driver that is connected
+                ops.append({"kind": "connect", "outs": {}, "gap_us": r.choice([0, 0, 50, 1000])})
+            elif kw.get("parallel") and driver in ("tridonic", "hasseb") and r.random() < kw["parallel"]:
                 ops.append(gen_parallel_op(r, driver, kw.get("cats"), kw.get("p_error", 0.15)))
             elif x < mix[0]:
                 ops.append(gen_send_op(r, driver, kw.get("cats"), kw.get("p_error", 0.15),
